@@ -1,6 +1,7 @@
 (* C01 -- Simulation computes the documented cycle semantics of every primitive.
    Only statements + `exact`; the proofs live in Sim/SimCorrect.v. *)
-From PyRTL Require Import Sim.SimModel Sim.SimCorrect.
+From PyRTL Require Import Sim.SimModel Sim.SimCorrect Netlist.Unique.
+From Coq Require Import Permutation.
 
 (* One cycle: every declared wire has exactly the reference value and lies in
    [0, 2^bitwidth); the successor states stay related. *)
@@ -24,6 +25,16 @@ Theorem C01_run_refines_spec : forall nl dflt regmap memmap inss,
     (fst (sim_run nl dflt (sim_init nl dflt regmap memmap) inss)).
 Proof. exact sim_refines_spec. Qed.
 Print Assumptions C01_run_refines_spec.
+
+(* The per-cycle valuation does not depend on which dependency order of the nets
+   Block.__iter__ happened to produce: any two well-formed orders of the same
+   nets give every reachable wire the same value. *)
+Theorem C01_order_independent : forall nl st l1 l2 rdy v0,
+  nets_ok nl rdy l1 = true -> nets_ok nl rdy l2 = true -> Permutation l1 l2 ->
+  forall w, In w (fold_left rdy_next l1 rdy) ->
+    fold_left (exec_spec nl st) l1 v0 w = fold_left (exec_spec nl st) l2 v0 w.
+Proof. exact comb_order_independent. Qed.
+Print Assumptions C01_order_independent.
 
 (* Non-vacuity: a design with a register (reset 5), a truncating subtract, a
    nand, a concat, a select and a memory satisfies wfb; both sides compute the
